@@ -3,7 +3,7 @@
    All theorems are for EVERY schedule (list of events), every queue, pop count, number of jobs and workers. *)
 From Coq Require Import List ZArith Bool Arith Permutation.
 Import ListNotations.
-Require Import DH.C17_Queue.Model DH.C17_Queue.Lemmas DH.C17_Queue.Lemmas2 DH.C17_Queue.Check DH.C17_Queue.Lemmas3 DH.C17_Queue.Lemmas4 DH.C17_Queue.Lemmas5 DH.C17_Queue.Lemmas6 DH.C17_Queue.Lemmas7.
+Require Import DH.C17_Queue.Model DH.C17_Queue.Lemmas DH.C17_Queue.Lemmas2 DH.C17_Queue.Check DH.C17_Queue.Lemmas3 DH.C17_Queue.Lemmas4 DH.C17_Queue.Lemmas5 DH.C17_Queue.Lemmas6 DH.C17_Queue.Lemmas7 DH.C17_Queue.Lemmas8.
 
 Theorem C17_conservation : forall q0 pop njobs W sched,
   let s := qrun pop (qinit q0 njobs W) sched in Permutation (queue s ++ held s) q0.
@@ -192,6 +192,25 @@ Theorem C17_ext_refines_mechanism : forall q0 pop W n sched, 1 <= pop ->
   proj (xrun pop W false (xstep pop W false (xinit pop q0) (XSubmit n)) (map emb sched)) = qrun pop (qinit q0 n W) sched.
 Proof. intros. apply ext_refines_mechanism. assumption. Qed.
 Print Assumptions C17_ext_refines_mechanism.
+
+(* the oracle raises no alarm on ANY behaviour of the extended mechanism on the serial backend (waves, run-functions that
+   raise, close() during evaluations and reuse afterwards): every schedule's observation trace is accepted, and the oracle's
+   free set is the deque plus the resources bound to jobs that have not started *)
+Theorem C17_ext_serial_run_is_accepted : forall q0 pop W sched,
+  let s := xrun pop W false (xinit pop q0) sched in
+  exists a', replay_obs pop (mkA q0 [] []) 0 (xobs_trace pop W false (xinit pop q0) sched) = (None, a') /\
+             Permutation (free a') (xqueue s ++ flat_map xhold1 (xjobs s)).
+Proof. intros. apply ext_serial_run_is_accepted. Qed.
+Print Assumptions C17_ext_serial_run_is_accepted.
+
+(* ... whereas on the thread backend the trace of the zombie schedule is rejected: event 1 (the start of the second job),
+   clause 2 = a resource that is not free (F52, what the thread_steps stream reports on the implementation) *)
+Theorem C17_ext_thread_zombie_trace_refuted :
+  fst (replay_obs 1 (mkA [100]%Z [] []) 0
+        (xobs_trace 1 2 true (xinit 1 [100]%Z) [XSubmit 1; XTake 0; XRun 0; XStart 0; XClose; XSubmit 1; XTake 1; XRun 1; XStart 1]))
+  = Some (1, 2).
+Proof. exact ext_thread_zombie_rejected. Qed.
+Print Assumptions C17_ext_thread_zombie_trace_refuted.
 
 (* the deterministic driver used by the step-wise streams: after [xsettle] (one pass of take j; admit j in id order) no job can
    take resources or be admitted any more, from every reachable state - the model state that is compared with the
